@@ -59,7 +59,69 @@ pub fn value_menu() -> Vec<Object> {
 }
 
 /// Abstract single-revision documents. `k` selects the variant.
+/// Documents 16.. : shapes that need more than one revision or a large body.
+fn abs_doc_extra(k: usize, style: Style) -> FileSpec {
+    let vm = value_menu();
+    let mut sections = vec![];
+    let mut trailer = Dictionary::new();
+    match k {
+        16 => {
+            // 300 hex strings of 150 pseudo-random bytes each (xorshift, fixed seed): stored in one object
+            // stream the Flate-compressed container exceeds 32 KiB (internal buffer sizes of inflaters)
+            let mut objects: BTreeMap<ObjectId, Object> = BTreeMap::new();
+            let mut x: u64 = 0x9E37_79B9_7F4A_7C15;
+            for id in 1..=300u32 {
+                let mut b = Vec::with_capacity(150);
+                for _ in 0..150 {
+                    x ^= x << 13;
+                    x ^= x >> 7;
+                    x ^= x << 17;
+                    b.push((x >> 32) as u8);
+                }
+                objects.insert((id, 0), hexs(&b));
+            }
+            objects.insert((301, 0), Object::Dictionary(dict(vec![("Type", name("Catalog")), ("First", Object::Reference((1, 0))), ("Last", Object::Reference((300, 0)))])));
+            trailer.set("Root", Object::Reference((301, 0)));
+            sections.push(Section { objects, trailer: trailer.clone(), objstm: Some(1), omit_xref: vec![], extra_members: vec![] });
+        }
+        _ => {
+            // k = 17: three revisions, k = 18: four. An object redefined in a MIDDLE revision is not listed
+            // again by the newest one; objects are added in every revision; one object is redefined twice.
+            let n_rev = if k == 17 { 3 } else { 4 };
+            let mut objects: BTreeMap<ObjectId, Object> = BTreeMap::new();
+            for id in 1..=6u32 {
+                objects.insert((id, 0), Object::Array(vec![Object::Integer(id as i64), lit(b"rev0"), vm[id as usize % vm.len()].clone()]));
+            }
+            objects.insert((9, 0), stream(vec![("Rev", Object::Integer(0))], b"body of revision 0"));
+            trailer.set("Root", Object::Reference((1, 0)));
+            trailer.set("Info", Object::Reference((3, 0)));
+            sections.push(Section { objects, trailer: trailer.clone(), objstm: None, omit_xref: vec![], extra_members: vec![] });
+            for r in 1..n_rev {
+                let mut o: BTreeMap<ObjectId, Object> = BTreeMap::new();
+                let redefine: Vec<u32> = match r {
+                    1 => vec![4, 2, 9],
+                    2 => vec![1, 5],
+                    _ => vec![2, 6],
+                };
+                for id in redefine {
+                    if id == 9 {
+                        o.insert((9, 0), stream(vec![("Rev", Object::Integer(r as i64))], format!("body of revision {}", r).as_bytes()));
+                    } else {
+                        o.insert((id, 0), Object::Dictionary(dict(vec![("Id", Object::Integer(id as i64)), ("Rev", Object::Integer(r as i64)), ("S", lit(format!("second ({})", r).as_bytes()))])));
+                    }
+                }
+                o.insert((9 + r as u32, 0), Object::Array(vec![name("Added"), Object::Integer(r as i64)]));
+                sections.push(Section { objects: o, trailer: trailer.clone(), objstm: None, omit_xref: vec![], extra_members: vec![] });
+            }
+        }
+    }
+    FileSpec { version: if k == 16 { "1.6".into() } else { "1.5".into() }, mark: vec![0xe2, 0xe3, 0xcf, 0xd3], style, sections, helper_base: None }
+}
+
 pub fn abs_doc(k: usize, style: Style) -> FileSpec {
+    if k >= 16 {
+        return abs_doc_extra(k, style);
+    }
     let vm = value_menu();
     let mut objects: BTreeMap<ObjectId, Object> = BTreeMap::new();
     let mut trailer = Dictionary::new();
